@@ -907,12 +907,13 @@ def check_C15(cx):
     pool = cases.REPR_LINES
     good = [b"mov rax, rbx\nret", b"vaddpd ymm3, ymm2, ymm1\nrorx rax, rbx, 5", b"mulx r8, r9, r10\nvmovupd [rdx], ymm3",
             b"lea r15, [rax+rsp]\nlea r15, [2*rax]\nmov rax, 0x1"]
-    bad = [b"bogus", b"mov rax, rbx\nmov rax, [rbx\nret", b"add rax, rbx, rcx, rdx, rsi", b"nop11 word -1\nimul r9, word [0x10+4*r13], 0x8000000000000000"]
+    bad = [b"bogus", b"mov rax, rbx\nmov rax, [rbx\nret", b"add rax, rbx, rcx, rdx, rsi", b"nop11 word -1\nimul r9, word [0x10+4*r13], 0x8000000000000000",
+           b"jmp 18446744073709551616\nmov rax, 0x10000000000000000\nadd rax, 99999999999999999999999"]
     alphabet = (["A %s" % cases.hexs(t) for t in good] + ["A %s" % cases.hexs(t) for t in bad] +
                 ["C 5 %s 1" % cases.hexs(good[0]), "C 0 %s 1" % cases.hexs(good[1]), "C 7 %s 0" % cases.hexs(good[0]),
                  "C 3 %s 1" % cases.hexs(bad[1]), "K 8", "K 16", "K 0", "S all 0", "S mov 1", "S sib 0", "O 3", "O 60",
                  "OTHER"])
-    finals = [("A", good[3]), ("A", good[1] + b"\nmov rax, 0x1122334455667788\nret"), ("A", bad[1]), ("C", good[2])]
+    finals = [("A", good[3]), ("A", good[1] + b"\nmov rax, 0x1122334455667788\njmp 5\nadd rcx, 0x10\nret"), ("A", bad[1]), ("C", good[2])]
     import itertools
     hists, meta = [], []
     maxlen = 3 if cx.tier == "thorough" else 2
@@ -1818,6 +1819,11 @@ def nop_items():
     return collections.OrderedDict(("nop%d" % n if n > 1 else "nop", "nop #%d" % n) for n in range(1, 12))
 
 
+POISON_LINES = [b"jmp 18446744073709551616", b"mov rax, 0x10000000000000000", b"add rax, 99999999999999999999999", b"mov rax, [0x100000000000000000]",
+                b"jmp -18446744073709551617", b"bogus rax", b"mov rax, rbz", b"mov rax, [rbx", b"mov rax, [rbx+rcx*3]", b"mov , rax", b"mov rax, 1, 2",
+                b"add " + b"r" * 120, b"mov rax, \xff", b"nop12", b"vaddpd ymm1, ymm2, ymm16", b"lea rax, [rsp+rsp]"]
+
+
 def check_enc(cx):
     cfg = ENC[cx.prop]
     quick = cx.tier == "quick"
@@ -1840,7 +1846,11 @@ def check_enc(cx):
     def opts_of(t):
         return opts + (mixed if ("b=-" in items[t] or ",i=4," in items[t]) else ())
     keys = [(o, t.encode()) for t in texts for o in opts_of(t)]
-    ops, out = tie_lines(cx, impl, keys, "%s family x %d option bytes (whole per-line pipeline)" % (cx.prop, len(opts) + len(mixed)))
+    # the family runs in ONE process behind lines that fail in every way the library can fail a line (numbers that overflow 64 bits,
+    # unknown names, broken brackets, over-long lines): whatever a rejected line leaves behind in the process must not matter
+    poison = [(14, l) for l in POISON_LINES]
+    ops, out = tie_lines(cx, impl, poison + keys, "%s family x %d option bytes (whole per-line pipeline)" % (cx.prop, len(opts) + len(mixed)))
+    out = out[len(poison):]
     res = {}
     for (o, l), ln in zip(keys, out):
         p = ln.split()
@@ -2026,7 +2036,8 @@ ENC_THEOREMS = {
             "AL.Lemmas.assembleImm_dword", "AL.Lemmas.assembleImm_qword", "AL.Lemmas.assembleImm_reduced", "AL.Lemmas.assembleConst_pad",
             "AL.Lemmas.strtoul_dec", "AL.Lemmas.strtoul_hex", "AL.Lemmas.strtoul_neg_dec", "AL.Lemmas.strtoul_neg_hex"],
     "C04": ["AL.Properties.Sweep.c04_sweep", "AL.Properties.C04.vex2_is_vex3"],
-    "C05": ["AL.Properties.Sweep.c05_sweep", "AL.Properties.C05.rel_field_reads_back", "AL.Properties.C05.written_displacement", "AL.Properties.C03.written_number_value_padded"],
+    "C05": ["AL.Properties.Sweep.c05_sweep", "AL.Properties.C05.rel_field_reads_back", "AL.Properties.C05.written_displacement", "AL.Properties.C03.written_number_value_padded",
+            "AL.Properties.C05.rel_branch_every_d", "AL.Lemmas.Branch.relKeys_classified", "AL.Lemmas.Branch.j_bytes", "AL.Lemmas.Branch.c_bytes", "AL.Lemmas.Branch.r_bytes"],
 }
 
 
